@@ -3,4 +3,5 @@ CONSTANTS
   N = 1
   Rad = 3
   Bug = 0
+CHECK_DEADLOCK FALSE
 INVARIANTS PtsLaw ContainsPointLaw IntersectsLaw IntersectionLaw ContainsLaw ExtendLaw ExtendPointLaw CornerLaw ShrinkStretchLaw CenterLaw DistanceLaw
